@@ -452,3 +452,119 @@ def h_b_add_kf(s1: int, l1: int, s2: int, l2: int, s3: int, l3: int):
     assume(all(0 <= s and 1 <= l and s + l <= N for (s, l) in spans) and _contained_or_crossing(spans))
     out = _unit_model_spans(spans)
     assert disjoint(out)
+
+
+# ---- NumberWithUnitExtractor.extract: prefix / suffix offset arithmetic, relative number position ---------------------------------
+from recognizers_number_with_unit.number_with_unit.extractors import NumberWithUnitExtractor  # noqa: E402
+from recognizers_number_with_unit.number_with_unit.english.extractors import EnglishCurrencyExtractorConfiguration  # noqa: E402
+from recognizers_text.matcher.match_result import MatchResult  # noqa: E402
+env.assert_repo(NumberWithUnitExtractor)
+UEX = NumberWithUnitExtractor(EnglishCurrencyExtractorConfiguration())
+UEX.separate_regex = None                     # the separate-unit pass is a different mechanism (regex on the text)
+USRC = sl('usrc', 'ab cd ef gh')
+
+
+class _StubMatcher:
+    hits = []
+
+    def find(self, source):
+        out = []
+        for (s, l) in self.hits:
+            m = MatchResult()
+            m.start, m.length, m.text = s, l, source[s:s + l]
+            out.append(m)
+        return out
+
+
+class _StubNums:
+    spans = []
+
+    def extract(self, source):
+        out = []
+        for (s, l) in self.spans:
+            e = ExtractResult()
+            e.start, e.length, e.text, e.type = s, l, source[s:s + l], 'builtin.num'
+            out.append(e)
+        return out
+
+
+_PM, _SM, _NX = _StubMatcher(), _StubMatcher(), _StubNums()
+_PM.hits, _SM.hits = [], []
+UEX.prefix_matcher, UEX.suffix_matcher = _PM, _SM
+UEX.config._unit_num_extractor = _NX
+if not hasattr(type(UEX.config), '_patched_une'):
+    type(UEX.config).unit_num_extractor = property(lambda self: _NX)
+    type(UEX.config)._patched_une = True
+
+
+def h_unit_extract(ns: int, nl: int, ps: int, pl: int, ss: int, sl_: int, hasp: bool, hass: bool):
+    """one number, at most one prefix-unit match before it and one suffix-unit match after it, all at symbolic positions"""
+    n = len(USRC)
+    assume(0 <= ns and 1 <= nl and ns + nl <= n)
+    assume(hasp or hass)
+    if hasp:
+        assume(0 <= ps and 1 <= pl and ps + pl <= ns)            # a prefix unit lies before the number
+    if hass:
+        assume(ns + nl <= ss and 1 <= sl_ and ss + sl_ <= n)      # a suffix unit lies after it
+    ns, nl = int(ns), int(nl)
+    _NX.spans = [(ns, nl)]
+    _PM.hits = [(int(ps), int(pl))] if hasp else []
+    _SM.hits = [(int(ss), int(sl_))] if hass else []
+    UEX.max_prefix_match_len = n
+    out = UEX.extract(USRC)
+    # which units attach (independent reading of the rules): only blanks between unit and number
+    pre_ok = hasp and USRC[int(ps) + int(pl):ns].strip() == '' and USRC[int(ps):int(ps) + int(pl)].strip() == USRC[int(ps):int(ps) + int(pl)]
+    mid = USRC[ns + nl:int(ss)] if hass else None
+    suf_ok = hass and (mid == '' or mid.isspace())
+    spans = []
+    for er in out:
+        assert 0 <= er.start and er.length >= 1 and er.start + er.length <= n
+        assert er.text == USRC[er.start:er.start + er.length], (er.text, er.start, er.length)
+        assert er.start <= ns and ns + nl <= er.start + er.length            # the entity contains its number ...
+        assert er.data.start == ns - er.start and er.data.length == nl        # ... and records where it is, relative to itself
+        spans.append((er.start, er.length))
+    if suf_ok and pre_ok:
+        assert spans == [(int(ps), int(ss) + int(sl_) - int(ps))]
+    elif suf_ok:
+        assert spans == [(ns, int(ss) + int(sl_) - ns)]
+    elif pre_ok and not hass:
+        assert spans == [(int(ps), ns + nl - int(ps))]
+    assert disjoint(spans)
+
+
+def t_unit_extract(ns: int, nl: int, ps: int, pl: int, ss: int, sl_: int, hasp: bool, hass: bool):
+    n = len(USRC)
+    assume(0 <= ns and 1 <= nl and ns + nl <= n and hass and not hasp and ns + nl <= ss and 1 <= sl_ and ss + sl_ <= n)
+    _NX.spans = [(int(ns), int(nl))]
+    _PM.hits, _SM.hits = [], [(int(ss), int(sl_))]
+    assert UEX.extract(USRC) == []
+
+
+# ---- _select_candidates: prefix/suffix conflict resolution keeps disjoint entities ----------------------------------------------------
+def h_select_candidates(s1: int, l1: int, s2: int, l2: int, s3: int, l3: int, p1: bool, p2: bool, p3: bool, k: int):
+    assume(2 <= k <= 3)
+    k = int(k)
+    spans = [(s1, l1), (s2, l2), (s3, l3)][:k]
+    n = 10
+    assume(all(0 <= s and 2 <= l and s + l <= n for (s, l) in spans))
+    assume(all(spans[i][0] <= spans[i + 1][0] for i in range(k - 1)))            # candidates come sorted by start (one per number)
+    flags = [p1, p2, p3][:k]
+    # every candidate is one number plus its unit: the number is the last character of a prefix-unit entity and the first of a
+    # suffix-unit entity; numbers are distinct and no candidate swallows another candidate's number (units may be shared: '5 $ 3')
+    nums = [(s + l - 1) if pf else s for (s, l), pf in zip(spans, [bool(f) for f in flags])]
+    flags = [bool(f) for f in flags]
+    assume(all(nums[i] < nums[i + 1] for i in range(k - 1)))
+    assume(all(not (spans[i][0] <= nums[j] and nums[j] < spans[i][0] + spans[i][1]) for i in range(k) for j in range(k) if i != j))
+    ers = []
+    for (s, l), pf in zip(spans, flags):
+        e = ExtractResult()
+        e.start, e.length, e.text, e.type = int(s), int(l), 'x' * int(l), 'currency'
+        num = ExtractResult()
+        # a prefix-unit entity has its number at the end, a suffix-unit entity at the start
+        num.start, num.length = (int(l) - 1, 1) if pf else (0, 1)
+        e.data = num
+        ers.append(e)
+    out = UEX._select_candidates('y' * n, list(ers), [bool(f) for f in flags])
+    sp = [(e.start, e.length) for e in out]
+    assert disjoint(sp), (spans, flags, sp)
+    assert all(any(e is o for o in ers) for e in out) and len(out) >= 1
